@@ -485,6 +485,13 @@ func (e *racEnv) call(x *ECall) gval {
 		o := n.eval(a[1])
 		return gv("racSame(" + v.s + ", " + o.s + ")", gBool, nil)
 	}
+	if strings.HasPrefix(x.Fn, "uf_") {
+		var as []string
+		for k := range a {
+			as = append(as, i(k))
+		}
+		return gv("racUF(\""+x.Fn+"\", "+strings.Join(as, ", ")+")", gInt, nil)
+	}
 	m := e.W.spec.Macros[x.Fn]
 	if m == nil {
 		e.fail("unknown function %s", x.Fn)
